@@ -292,3 +292,46 @@ class CFG:
 
     def return_nodes(self):
         return [n for n in self.func.walk() if n["k"] == "return"]
+
+
+def enum_paths(cfg, start_block, stop_blocks, within=None, max_paths=2000):
+    """Acyclic paths from the top of start_block until a block in stop_blocks (not
+    entered) or the function exit.  Yields (items, end) where items is a list of
+    ("ev", node id) / ("br", cond node id, truth) and end is the block reached
+    (a stop block id, cfg.exit, or None when the path left `within`)."""
+    out = []
+    count = [0]
+
+    def rec(bid, items, seen):
+        if count[0] >= max_paths:
+            raise OverflowError("too many paths")
+        b = cfg.blocks[bid]
+        items = items + [("ev", e) for e in b.ev]
+        if bid == cfg.exit:
+            count[0] += 1
+            out.append((items, cfg.exit))
+            return
+        br = cfg.branch(bid)
+        succs = [(k, s) for k, s in enumerate(b.succ) if s is not None]
+        if not succs:
+            count[0] += 1
+            out.append((items, None))
+            return
+        for k, s in succs:
+            it2 = items
+            if br and br[1] != br[2]:
+                it2 = items + [("br", br[0], k == 0)]
+            if s in stop_blocks:
+                count[0] += 1
+                out.append((it2, s))
+                continue
+            if within is not None and s not in within and s != cfg.exit:
+                count[0] += 1
+                out.append((it2, None))
+                continue
+            if s in seen:
+                continue
+            rec(s, it2, seen | {s})
+
+    rec(start_block, [], {start_block})
+    return out
